@@ -34,6 +34,11 @@ func errRegionIsStale(region *metapb.Region, origin *metapb.Region) error {
 	return errors.Errorf("region is stale: region %v origin %v", region, origin)
 }
 
+// errRegionInvalidRange is error info for a region whose key range is empty or inverted.
+func errRegionInvalidRange(region *metapb.Region) error {
+	return errors.Errorf("region has an invalid key range: region %v", region)
+}
+
 // RegionInfo records detail region info.
 // Read-Only once created.
 type RegionInfo struct {
